@@ -23,7 +23,7 @@ class Unsupported(Exception):
 TOKEN_RE = re.compile(r"""
     (?P<ws>\s+)
   | (?P<lifetime>'[A-Za-z_][A-Za-z0-9_]*(?!'))
-  | (?P<num>\d[\d_]*(?:\.\d[\d_]*)?(?:[eE][+-]?\d+)?(?:_?(?:f32|f64|usize|u8|u16|u32|u64|i8|i16|i32|i64|isize))?)
+  | (?P<num>0b[01_]+|0x[0-9a-fA-F_]+|\d[\d_]*(?:\.\d[\d_]*)?(?:[eE][+-]?\d+)?(?:_?(?:f32|f64|usize|u8|u16|u32|u64|i8|i16|i32|i64|isize))?)
   | (?P<ident>[A-Za-z_][A-Za-z0-9_]*)
   | (?P<punct>::|=>|->|==|!=|<=|>=|&&|\|\||\.\.=|\.\.|\+=|-=|\*=|/=|[-+*/%=<>!&|.,;:(){}\[\]#?@^~$])
 """, re.X)
@@ -101,7 +101,7 @@ def balanced(txt, i, o="{", c="}"):
 
 
 # ------------------------------------------------------------------------------------------------ parser
-BINPREC = [("||",), ("&&",), ("==", "!=", "<", ">", "<=", ">="), ("+", "-"), ("*", "/", "%")]
+BINPREC = [("||",), ("&&",), ("==", "!=", "<", ">", "<=", ">="), ("&",), ("+", "-"), ("*", "/", "%")]
 
 
 class Parser:
@@ -262,6 +262,9 @@ class Parser:
     # ---- expressions
     def expr(self, stmt=False, nostruct=False):
         lhs = self.binexpr(0, nostruct)
+        if self.at(".."):
+            self.eat("..")
+            lhs = ("range", lhs, self.binexpr(0, nostruct))
         if self.at("="):
             self.eat("=")
             return ("assign", lhs, self.expr(nostruct=nostruct))
@@ -426,7 +429,12 @@ class Parser:
             self.eat("in")
             it = self.expr(nostruct=True)
             return ("for", pat, it, self.block())
-        if v in ("while", "continue"):
+        if v == "while":
+            self.eat()
+            if self.at("let"): raise Unsupported("while let")
+            cond = self.expr(nostruct=True)
+            return ("while", cond, self.block())
+        if v == "continue":
             raise Unsupported("control flow construct `%s`" % v)
         if v == "move":
             self.eat()
@@ -434,7 +442,7 @@ class Parser:
         if k == "ident":
             segs = self.path()
             if self.at("!"):
-                if segs[-1] in ("unreachable", "panic", "unimplemented", "todo") and self.peek(1)[1] == "(":
+                if segs[-1] in ("unreachable", "panic", "unimplemented", "todo", "debug_assert", "debug_assert_eq") and self.peek(1)[1] == "(":
                     self.eat("!")
                     depth = 0
                     while True:
@@ -444,7 +452,7 @@ class Parser:
                             depth -= 1
                             if depth == 0: break
                         elif v2 == "": raise Unsupported("unterminated macro arguments")
-                    return ("diverge", segs[-1])
+                    return ("diverge", segs[-1]) if not segs[-1].startswith("debug_assert") else ("tuple", [])
                 raise Unsupported("macro invocation %s!" % "::".join(segs))
             if self.at("{") and not nostruct and segs[-1][0].isupper():
                 self.eat("{")
@@ -481,6 +489,22 @@ def parse_body(body_txt):
 #                      ("unit",) ("bidx", bool)  (a bool converted into an index)  ("fn", name) ("closure", ast, env)
 #                      ("obj", kind, payload)    opaque objects with primitive methods (ring buffer, median window, sub-filter)
 
+class Panics(Exception):
+    """the executed path ends in a panic (unwrap of None, ...): the lemma for this path says the model returns None"""
+
+
+class NeedAssumption(Exception):
+    """path-splitting mode ran out of assumed branch outcomes: the driver extends the vector and re-runs"""
+
+
+def as_nat(v):
+    """Gallina nat text of a machine integer value, or None"""
+    if v[0] == "Nat": return v[1]
+    if v[0] == "N" and v[1][0] == "nlit": return str(v[1][1])
+    return None
+
+
+OBJ_PRINT = {}      # object kind -> printer (registered by the entry definitions)
 def T(t): return ("T", t)
 def B(b): return ("B", b)
 ENUM_TYPES = ("Ordering", "Slope", "Peak")
@@ -578,6 +602,46 @@ class Sym:
         self.dyn_hyps = []      # hypotheses `call = result pattern` about those calls, in evaluation order
         self.world = None       # name of the current "world" variable threaded through abstract stage calls
         self.counter = 0
+        self.assume = None      # path-splitting mode: list of booleans consumed at every symbolic branch (see NeedAssumption)
+        self.taken = []         # the assumptions actually consumed
+        self.reads = {}         # (buffer name, index text) -> node variable: array reads already assumed
+        self.curbuf = None      # name of the current node buffer (usize::MAX is printed as `poison` of it)
+        self.while_handler = None # callback(sym, env, while-AST): unrolls once and/or summarises the loop by the model's loop function
+        self.loop_summary = None  # callback(sym, env, for-AST) summarising a range loop by a hypothesis about the model's loop function
+
+    def decide(self, what_true, what_false):
+        """path-splitting: take the next assumed outcome of a symbolic test and record it as a hypothesis"""
+        if self.assume is None: raise Unsupported("symbolic test outside path-splitting mode: %s" % what_true)
+        if not self.assume: raise NeedAssumption()
+        b = self.assume.pop(0)
+        self.taken.append(b)
+        self.dyn_hyps.append(what_true if b else what_false)
+        return b
+
+    # ---- node buffers (the median filter's array of list nodes): reads and writes are hypotheses getn/setn = Some _
+    def buf_read(self, buf, ix):
+        name = buf[2]
+        key = (name, ix)
+        if key not in self.reads:
+            nd = "nd%d" % self.fresh()
+            self.dyn_vars.append((nd, "node T"))
+            self.dyn_hyps.append("getn T %s %s = Some %s" % (name, ix, nd))
+            self.reads[key] = nd
+        nd = self.reads[key]
+        return ("struct", {"value": ("optraw", "(value %s)" % nd), "previous": ("Nat", "(previous %s)" % nd), "next": ("Nat", "(next %s)" % nd)})
+
+    def node_text(self, v):
+        if v[0] != "struct" or set(v[1]) - {"__sub"} != {"value", "previous", "next"}: raise Unsupported("array element is not a list node")
+        val = v[1]["value"]
+        vt = val[1] if val[0] == "optraw" else coq_V(val)
+        return "{| value := %s; previous := %s; next := %s |}" % (vt, as_nat(v[1]["previous"]), as_nat(v[1]["next"]))
+
+    def buf_write(self, buf, ix, node):
+        new = "b%d" % self.fresh()
+        self.dyn_vars.append((new, "list (node T)"))
+        self.dyn_hyps.append("setn T %s %s %s = Some %s" % (buf[2], ix, self.node_text(node), new))
+        self.curbuf = new
+        return ("obj", "buf", new)
 
     def fresh(self):
         self.counter += 1
@@ -595,6 +659,20 @@ class Sym:
         raise Unsupported("assignment target is not a field path")
 
     def store(self, env, e, v):
+        if e[0] == "index" or (e[0] == "field" and e[1][0] == "index"):
+            ixe = e if e[0] == "index" else e[1]
+            buf = self.ev(ixe[1], env)
+            if buf[0] != "obj" or buf[1] != "buf": raise Unsupported("assignment to an element of something that is not a node buffer")
+            ix = as_nat(self.ev(ixe[2], env))
+            if ix is None: raise Unsupported("array index is not a machine integer")
+            if e[0] == "index":
+                node = v
+            else:
+                old = self.buf_read(buf, ix)
+                d = dict(old[1]); d[e[2]] = v
+                node = ("struct", d)
+            self.store(env, ixe[1], self.buf_write(buf, ix, node))
+            return
         root, path = self.lpath(e)
         cur = env.get(root)
         if cur[0] == "ref":
@@ -680,6 +758,8 @@ class Sym:
         if c == ("bfalse",): return el()
         if c[0] == "not":                        # `if !c {a} else {b}` is written `if c then b else a` in the models
             return self.cond(c[1], el, th, env)
+        if self.assume is not None:
+            return th() if self.decide("%s = true" % coq_B(c), "%s = false" % coq_B(c)) else el()
         snap = env.snapshot()
         ndiv = len(self.divs)
         va = th()
@@ -700,7 +780,8 @@ class Sym:
     def ev(self, e, env):
         k = e[0]
         if k == "num":
-            txt = re.sub(r"_?(usize|u\d+|i\d+|isize)$", "", e[1])
+            txt = re.sub(r"_?(usize|u\d+|i\d+|isize)$", "", e[1]).replace("_", "")
+            if re.fullmatch(r"0b[01]+|0x[0-9a-fA-F]+", txt): return ("N", ("nlit", int(txt, 0)))
             if re.fullmatch(r"\d+", txt): return ("N", ("nlit", int(txt)))
             raise Unsupported("float literal %s in generic code" % e[1])
         if k == "path":
@@ -711,6 +792,8 @@ class Sym:
                 val = env.get(segs[0])
                 if val[0] == "ref": return lookup(env.get(val[1]), val[2])
                 return val
+            if segs == ["usize", "MAX"] and self.curbuf is not None: return ("Nat", "(poison T %s)" % self.curbuf)
+            if segs == ["usize", "MAX"]: return ("N", ("nvar", "maxu"))
             if segs[-1] in ("zero", "one") and len(segs) == 2: return ("fn", segs[-1])
             if segs[-1] == "None": return ("opt", None)
             if segs[0] in ENUM_TYPES or (len(segs) >= 2 and segs[-2] in ENUM_TYPES): return ("enum", segs[-1])
@@ -733,6 +816,9 @@ class Sym:
         if k == "index":
             a = self.ev(e[1], env)
             ix = self.ev(e[2], env)
+            if a[0] == "obj" and a[1] == "buf":
+                if as_nat(ix) is None: raise Unsupported("array index is not a machine integer")
+                return self.buf_read(a, as_nat(ix))
             if a[0] != "array": raise Unsupported("indexing a non-array")
             if ix[0] == "N" and ix[1][0] == "nlit": return a[1][ix[1][1]]
             if ix[0] == "bidx" and len(a[1]) == 2: return merge(ix[1], a[1][1], a[1][0])
@@ -752,6 +838,7 @@ class Sym:
             return self.cond(c[1], lambda: self.block(e[2], env), lambda: (self.ev(e[3], env) if e[3] is not None else ("unit",)), env)
         if k == "iflet":
             v = self.ev(e[2], env)
+            if v[0] == "optraw": v = self.split_opt(v)
             b = self.pmatch(e[1], v)
             if b is not None:
                 inner = Env(env)
@@ -772,6 +859,9 @@ class Sym:
             return self.match_value(v, e[2], env)
         if k == "return":
             raise Return(self.ev(e[1], env) if e[1] is not None else ("unit",))
+        if k == "while":
+            if self.while_handler is None: raise Unsupported("while loop without a loop summary")
+            return self.while_handler(self, env, e)
         if k == "loop": return self.loop(e, env)
         if k == "for": return self.forloop(e, env)
         if k == "call":
@@ -795,7 +885,15 @@ class Sym:
         if k == "diverge": raise Unsupported("execution reaches %s!()" % e[1])
         raise Unsupported("expression kind %s" % k)
 
+    def split_opt(self, v):
+        w = "w%d" % (self.counter + 1)
+        if self.decide("%s = Some %s" % (v[1], w), "%s = None" % v[1]):
+            self.fresh(); self.dyn_vars.append((w, "T"))
+            return ("opt", T(("var", w)))
+        return ("opt", None)
+
     def match_value(self, v, arms, env):
+        if v[0] == "optraw": v = self.split_opt(v)
         for pat, body in arms:
             b = self.pmatch(pat, v)
             if b is not None:
@@ -834,7 +932,11 @@ class Sym:
 
     def forloop(self, e, env):
         pat, it_e, blk = e[1], e[2], e[3]
+        if it_e[0] == "range":
+            if self.loop_summary is None: raise Unsupported("range loop without a loop summary")
+            return self.loop_summary(self, env, e)
         it = self.ev(it_e, env)
+        if it[0] == "obj" and self.loop_summary is not None: return self.loop_summary(self, env, e)
         if it[0] != "L" or pat[0] != "pid": raise Unsupported("for loop over a value of kind %s" % it[0])
         el = pat[1]
         targets = assigned_names(blk, set())
@@ -893,7 +995,27 @@ class Sym:
             if op == ">=": return B(("le", y, x))
             if op == "==": return B(("eq", x, y))
             if op == "!=": return B(("not", ("eq", x, y)))
+        if (a[0] == "Nat" or b[0] == "Nat") and as_nat(a) is not None and as_nat(b) is not None:
+            x, y = as_nat(a), as_nat(b)
+            if op == "+": return ("Nat", "(%s + %s)" % (x, y))
+            if op == "-": return ("Nat", "(%s - %s)" % (x, y))
+            if op == "&": return ("Nat", "(Nat.land %s %s)" % (x, y))
+            if op == "%":
+                if not (b[0] == "N" and b[1][0] == "nlit" and b[1][1] > 0): self.dyn_hyps.append("(%s =? 0) = false" % y)
+                return ("Nat", "(%s mod %s)" % (x, y))
+            if op == "==": return B(("raw", "(%s =? %s)" % (x, y)))
+            if op == "!=": return B(("raw", "(negb (%s =? %s))" % (x, y)))
+            if op == "<": return B(("raw", "(%s <? %s)" % (x, y)))
+            if op == ">": return B(("raw", "(%s <? %s)" % (y, x)))
+            if op == "<=": return B(("raw", "(%s <=? %s)" % (x, y)))
+            if op == ">=": return B(("raw", "(%s <=? %s)" % (y, x)))
+        if a[0] == "N" and b[0] == "N" and op in ("+", "-"):
+            z = "z%d" % self.fresh(); self.dyn_vars.append((z, "N"))
+            self.dyn_hyps.append(("cadd maxu %s %s = Some %s" if op == "+" else "csub %s %s = Some %s") % (coq_N(a[1]), coq_N(b[1]), z))
+            return ("N", ("nvar", z))
         if a[0] == "N" and b[0] == "N":
+            if op == "<": return B(("raw", "(N.ltb %s %s)" % (coq_N(a[1]), coq_N(b[1]))))
+            if op == ">": return B(("raw", "(N.ltb %s %s)" % (coq_N(b[1]), coq_N(a[1]))))
             if op == ">=": return B(("nle", b[1], a[1]))
             if op == "<=": return B(("nle", a[1], b[1]))
         if a[0] == "B" and b[0] == "B":
@@ -952,6 +1074,14 @@ class Sym:
             o = self.ev(args_e[0], env)
             if o == ("N", ("nlit", 1)): return ("N", ("satsucc", recv[1]))
             raise Unsupported("saturating_add of something other than 1")
+        if recv[0] == "optraw":
+            if name == "is_some": return B(("raw", "(is_some %s)" % recv[1]))
+            if name == "is_none": return B(("raw", "(negb (is_some %s))" % recv[1]))
+            if name == "unwrap":
+                w = "out%d" % self.fresh(); self.dyn_vars.append((w, "T"))
+                self.dyn_hyps.append("%s = Some %s" % (recv[1], w))
+                return T(("var", w))
+        if recv[0] == "obj" and recv[1] == "buf" and name == "len" and not args_e: return ("Nat", "(length %s)" % recv[2])
         if recv[0] == "opt":
             if name in ("unwrap_or_else", "unwrap_or"):
                 if recv[1] is not None: return recv[1]
@@ -962,8 +1092,19 @@ class Sym:
             if name == "is_some": return B(("btrue",) if recv[1] is not None else ("bfalse",))
             if name == "is_none": return B(("bfalse",) if recv[1] is not None else ("btrue",))
             if name == "unwrap":
-                if recv[1] is None: raise Unsupported("unwrap of None")
+                if recv[1] is None:
+                    if self.assume is not None: raise Panics("unwrap of None")
+                    raise Unsupported("unwrap of None")
                 return recv[1]
+            if name == "map_or" and len(args_e) == 2:
+                if recv[1] is None: return self.ev(args_e[0], env)
+                f = self.ev(args_e[1], env)
+                if f[0] != "closure": raise Unsupported("map_or with a non-closure")
+                inner = Env(f[2])
+                b = self.pmatch(f[1][1][0], recv[1])
+                if b is None: raise Unsupported("closure pattern does not match")
+                inner.vars.update(b)
+                return self.ev(f[1][2], inner)
             if name == "map" and len(args_e) == 1:
                 if recv[1] is None: return recv
                 f = self.ev(args_e[0], env)
@@ -1047,10 +1188,13 @@ def coq_V(v):
     if k == "B": return coq_B(v[1])
     if k == "N": return coq_N(v[1])
     if k == "opt": return "None" if v[1] is None else "(Some %s)" % coq_V(v[1])
+    if k == "Nat": return v[1]
+    if k == "optraw": return v[1]
     if k == "tuple": return "(" + ", ".join(coq_V(x) for x in v[1]) + ")"
     if k == "raw": return v[1]
     if k == "unit": return "tt"
     if k in ("L", "L2"): return v[1]
+    if k == "obj" and v[1] in OBJ_PRINT: return OBJ_PRINT[v[1]](v)
     if k == "obj": return str(v[2][0] if isinstance(v[2], tuple) else v[2])
     if k == "enum":
         if v[1] not in ENUM_COQ: raise Unsupported("enum value %s" % v[1])
